@@ -364,6 +364,7 @@ type gen struct {
 	nickIDs       map[string]int
 	force         [][2]int // scripted block: (kind code, producer) pairs instead of random picks
 	scripted      bool
+	cycles        bool // several POW <-> DPOS cycles in one trace (RevertToPOW, RevertToDPOS, resumption, RevertToPOW, ...)
 	modeSwitch    bool // RevertToPOW / RevertToDPOS transactions (oracle only, not in the Coq model)
 	illegal       bool // illegal-proposal evidence against active producers (oracle only)
 	v2            bool // stake / Voting payload (delegate and DPoS v2 votes) / v2 producers (oracle only)
@@ -396,10 +397,19 @@ func (g *gen) block(height uint32) *blockd {
 	if g.scripted {
 		ntx = len(g.force)
 	}
+	// cycles: switch the consensus mode whenever the state allows it (a pending work height is waited for)
+	cycleNow := g.cycles && g.rng.Chance(55) &&
+		!(g.a.abt.GetConsensusAlgorithm() == state.POW && g.a.abt.DPOSWorkHeight != 0)
+	if cycleNow && ntx == 0 {
+		ntx = 1
+	}
 	for k := 0; k < ntx; k++ {
 		i := g.rng.Intn(len(keys))
 		kind := g.rng.Intn(9)
 		if g.modeSwitch && g.rng.Chance(12) {
+			kind = 9
+		}
+		if g.cycles && k == 0 && cycleNow {
 			kind = 9
 		}
 		if g.illegal && g.rng.Chance(8) {
@@ -805,6 +815,7 @@ func main() {
 	const (
 		kReg, kUpd, kCancel, kReturn, kTopup = 0, 2, 3, 7, 8
 		kIllegal, kInactive, kActivate       = 10, 14, 15
+		kRevert                              = 9
 	)
 	type script struct {
 		kind string
@@ -828,6 +839,9 @@ func main() {
 		{"corpus:inactive-twice", cfg{Lockup: 3, LihStart: -1, Penalties: true}, 12, map[int][][2]int{0: {{kReg, 1}}, 7: {{kInactive, 1}}, 9: {{kInactive, 1}}}},
 		// a reactivated producer (activateRequestHeight set) becomes inactive again
 		{"corpus:inactive-after-reactivation", cfg{Lockup: 3, LihStart: -1, Penalties: true}, 22, map[int][][2]int{0: {{kReg, 2}}, 7: {{kInactive, 2}}, 8: {{kActivate, 2}}, 17: {{kInactive, 2}}}},
+		// two and a half POW <-> DPOS cycles: RevertToPOW, RevertToDPOS, resumption, RevertToPOW, RevertToDPOS, resumption, RevertToPOW
+		{"corpus:mode-switch-cycles", cfg{Lockup: 3, LihStart: 0}, 26, map[int][][2]int{0: {{kReg, 0}}, 3: {{kRevert, 0}}, 5: {{kRevert, 0}}, 12: {{kRevert, 0}},
+			14: {{kRevert, 0}}, 21: {{kRevert, 0}}}},
 		// register, update, cancel, lock-up, return
 		{"corpus:lifecycle", cfg{Lockup: 2, LihStart: 2}, 14, map[int][][2]int{0: {{kReg, 3}, {kReg, 4}}, 2: {{kUpd, 3}}, 7: {{kCancel, 3}}, 8: {{kTopup, 4}}, 10: {{kReturn, 3}}, 12: {{kCancel, 4}}}},
 	}
@@ -838,7 +852,17 @@ func main() {
 			c.LihStart = rng.Range(0, 8)
 		}
 		c.Penalties = rng.Chance(35)
+		cycles := rng.Chance(15)
+		if cycles {
+			c.Penalties = false
+			if c.LihStart < 0 {
+				c.LihStart = rng.Range(0, 8)
+			}
+		}
 		n := rng.Range(10, 26)
+		if cycles {
+			n = rng.Range(20, 26)
+		}
 		var sc *script
 		if t < len(corpus) {
 			sc = &corpus[t]
@@ -846,7 +870,8 @@ func main() {
 		}
 		a := newInst(c)
 		g := &gen{rng: rng, a: a, deposits: map[int][]string{}, allowConflict: rng.Chance(15) || sc != nil, refIDs: map[string]int{}, nickIDs: map[string]int{},
-			scripted: sc != nil, modeSwitch: sc == nil && c.LihStart >= 0 && rng.Chance(50), illegal: sc == nil && rng.Chance(25), v2: sc == nil && rng.Chance(25), inactive: c.Penalties}
+			scripted: sc != nil, cycles: sc == nil && cycles, modeSwitch: sc == nil && !cycles && c.LihStart >= 0 && rng.Chance(50),
+			illegal: sc == nil && !cycles && rng.Chance(25), v2: sc == nil && !cycles && rng.Chance(25), inactive: c.Penalties}
 		start := a.abt.ChainParams.VoteStartHeight
 		var blocks []*blockd
 		snaps := []snap{takeSnap(a.abt)} // snaps[i] = after i blocks
@@ -897,7 +922,11 @@ func main() {
 			}
 		}
 		// (2) roll back height by height
-		for k := n - 1; k >= 0 && k >= n-8; k-- {
+		depth := 8
+		if g.cycles || g.scripted {
+			depth = n // rollbacks to every height, across every mode switch
+		}
+		for k := n - 1; k >= 0 && k >= n-depth; k-- {
 			panicked, pv := lib.Recover(func() { a.abt.RollbackTo(start + uint32(k) - 1) })
 			a.best = start + uint32(k) - 1
 			if panicked {
@@ -919,6 +948,9 @@ func main() {
 		// (3) jump on a fresh instance, then feed the rest again
 		for rep := 0; rep < 2; rep++ {
 			k := rng.Range(maxI(0, n-12), n-1)
+			if g.cycles || g.scripted {
+				k = rng.Range(0, n-1)
+			}
 			f := newInst(c)
 			for i := 0; i < n; i++ {
 				f.process(blocks[i].real())
